@@ -135,6 +135,9 @@ class RingMachine(Machine):
             sh.elems[loc] = arg
             ans = None
             self.plain_ops += 1
+        elif kind == 'event':
+            sh.cells[('event', loc)] = sh.cells.get(('event', loc), 0) + 1
+            ans = None
         else:
             raise Undecided('unknown access ' + kind)
         self.log.append((t, ans, kind, loc, self.cur_op))
@@ -150,7 +153,12 @@ class RingMachine(Machine):
                 return obj[2][2]
         return None
 
+    SHARED_PLAIN = ()      # (record, field) pairs that are plain memory shared between threads
+    CALLBACKS = {}         # value of a function-pointer field -> event name recorded when it is called
+
     def field_load(self, obj, rec, field):
+        if (rec, field) in self.SHARED_PLAIN:
+            return self.access('eload', (obj, field))
         i = self._elem_index(obj)
         if i is not None:
             if not (0 <= i < self.sh.length):
@@ -168,6 +176,9 @@ class RingMachine(Machine):
         return SYM
 
     def field_store(self, obj, rec, field, v, node):
+        if (rec, field) in self.SHARED_PLAIN:
+            self.access('estore', (obj, field), v, node)
+            return
         i = self._elem_index(obj)
         if i is not None:
             if not (0 <= i < self.sh.length):
@@ -282,6 +293,9 @@ class RingMachine(Machine):
                 return o
             if cv == ('cb', 'free_cb'):
                 self.freed_cb.append(vals[1] if len(vals) > 1 else SYM)
+                return None
+            if isinstance(cv, tuple) and cv in self.CALLBACKS:
+                self.access('event', self.CALLBACKS[cv], None, node)
                 return None
             raise NotImplementedError
         if name in ('urefcount_use', 'urefcount_release', 'upool_use', 'upool_release'):
